@@ -4,6 +4,7 @@ import (
 	"encoding/json"
 	"fmt"
 	"os"
+	"regexp"
 	"time"
 
 	"gvh/common"
@@ -54,6 +55,13 @@ func (r *runner) attempt(c *fedlab.Case, kind string) (*fedlab.Verdict, bool) {
 			fmt.Fprintln(os.Stderr, "shrink: candidate passes:", v.Failed(), c.Op.Text())
 		}
 		return v, false
+	}
+	// C01_SHRINK_KEEP: a regular expression the failure detail must keep matching (keeps the shrinker from
+	// drifting into another finding that fails the same clause)
+	if keep := os.Getenv("C01_SHRINK_KEEP"); keep != "" {
+		if ok, _ := regexp.MatchString(keep, v.FailDetail()); !ok {
+			return v, false
+		}
 	}
 	if r.lab != nil {
 		if err := r.lab.Validate(c.Op.Text()); err != nil {
